@@ -767,40 +767,28 @@ func (self Node) Gets(keys []PathNode, opts *Options) (err error) {
 	}
 	need := len(keys)
 	for count := 0; it.HasNext() && count < need; {
+		// read ONE entry, then compare its key with every requested key
+		_, kb, v, e := it.NextBin(opts.UseNativeSkip)
+		if it.Err != nil {
+			return errValue(meta.ErrRead, "", it.Err)
+		}
 		for j, id := range keys {
-			if id.Path.Type() == PathStrKey {
-				exp := id.Path.str()
-				_, s, v, e := it.NextStr(opts.UseNativeSkip)
-				if it.Err != nil {
-					return errValue(meta.ErrRead, "", it.Err)
+			hit := false
+			switch id.Path.Type() {
+			case PathStrKey:
+				hit = it.kt == thrift.STRING && len(kb) >= 4 && string(kb[4:]) == id.Path.str()
+			case PathIntKey:
+				if it.kt.IsInt() {
+					kp := thrift.BinaryProtocol{Buf: kb}
+					n, err := kp.ReadInt(it.kt)
+					hit = err == nil && n == id.Path.int()
 				}
-				if exp == s {
-					p := &keys[j]
-					count += 1
-					p.Node = self.slice(v, e, et)
-				}
-			} else if id.Path.Type() == PathIntKey {
-				exp := id.Path.int()
-				_, s, v, e := it.NextInt(opts.UseNativeSkip)
-				if it.Err != nil {
-					return errValue(meta.ErrRead, "", it.Err)
-				}
-				if exp == s {
-					p := &keys[j]
-					count += 1
-					p.Node = self.slice(v, e, et)
-				}
-			} else {
-				exp := id.Path.bin()
-				_, s, v, e := it.NextBin(opts.UseNativeSkip)
-				if it.Err != nil {
-					return errValue(meta.ErrRead, "", it.Err)
-				}
-				if bytes.Equal(exp, s) {
-					p := &keys[j]
-					count += 1
-					p.Node = self.slice(v, e, et)
-				}
+			default:
+				hit = bytes.Equal(id.Path.bin(), kb)
+			}
+			if hit {
+				keys[j].Node = self.slice(v, e, et)
+				count += 1
 			}
 		}
 	}
